@@ -1,40 +1,45 @@
 #!/bin/bash
-# usage: tools/confirm_seed.sh <ID> <slot>   -- confirm a seeded change from /tmp/seed/<ID>.patch.diff in scratch worktree /tmp/confirm/<slot>
-# (created at /repo HEAD when missing).  Steps: patch applies; changed files compile; the repository's test suite (baseline command,
-# integration tests excluded: they fail offline on the unchanged tree) passes except the baseline's always-fail / flaky tests, failing
-# tests are re-run alone once; the demonstration fails with the change and passes without; then the check <ID> is run against it.
-# Result: /tmp/confirm/<ID>.result.json
-id=$1; slot=$2
+# usage: tools/confirm_seed.sh <wave dir> <ID> <slot>
+# Confirms the seeded change <wave dir>/<ID>.patch.diff in the scratch worktree /tmp/confirm/<slot> (reset to /repo HEAD):
+#  the patch applies; the changed files compile; the demonstration passes without and fails with the change; the repository's
+#  test suite (baseline command; integration tests and test_labjack_hardware excluded: they fail offline on the unchanged tree;
+#  test_opcua_hardware run separately under a lock because it binds a fixed port) passes except test_validate_demo_uod
+#  (baseline always-fail), tests that fail are re-run alone once (wall-clock tests flake under load); then check <ID> is run
+#  against the patched worktree.  Result: /tmp/confirm/<wave>_<ID>.result.json
+wdir=$1; id=$2; slot=$3
+wave=$(basename $wdir)
 wt=/tmp/confirm/$slot
 mkdir -p /tmp/confirm
 [ -d $wt ] || git -C /repo worktree add --detach $wt HEAD > /dev/null 2>&1
-cd $wt && git checkout -q -- . && git clean -fdq
+cd $wt && git checkout -q --detach $(git -C /repo rev-parse HEAD) && git checkout -q -- . && git clean -fdq
 head=$(git rev-parse --short HEAD)
-res=/tmp/confirm/$id.result.json
-# demo without the change
-demo=/tmp/seed/$id.demo_test.py
-/venv/bin/python $demo > /tmp/confirm/$id.demo_without.log 2>&1; d0=$?
-git apply /tmp/seed/$id.patch.diff || { echo "{\"id\":\"$id\",\"applies\":false}" > $res; exit 1; }
+res=/tmp/confirm/${wave}_$id.result.json
+pre=/tmp/confirm/${wave}_$id
+demo=$wdir/$id.demo_test.py
+/venv/bin/python $demo > $pre.demo_without.log 2>&1; d0=$?
+git apply $wdir/$id.patch.diff || { echo "{\"id\":\"$id\",\"wave\":\"$wave\",\"applies\":false}" > $res; echo "$id: patch does not apply"; exit 1; }
 files=$(git diff --name-only | tr '\n' ' ')
 /venv/bin/python -m py_compile $(git diff --name-only | grep '\.py$') ; comp=$?
-/venv/bin/python $demo > /tmp/confirm/$id.demo_with.log 2>&1; d1=$?
-# test suite
+/venv/bin/python $demo > $pre.demo_with.log 2>&1; d1=$?
 timeout 3000 /venv/bin/python -m pytest -q -p no:cacheprovider --timeout=900 --continue-on-collection-errors \
-   --ignore=openpectus/test/integration --ignore=openpectus/test/engine/test_labjack_hardware.py > /tmp/confirm/$id.tests.log 2>&1
-failed=$(grep '^FAILED\|^ERROR' /tmp/confirm/$id.tests.log | sed 's/ - .*//' | awk '{print $2}' | grep -v test_validate_demo_uod | tr '\n' ' ')
-summary=$(grep -E "[0-9]+ passed" /tmp/confirm/$id.tests.log | tail -1)
+   --ignore=openpectus/test/integration --ignore=openpectus/test/engine/test_labjack_hardware.py \
+   --ignore=openpectus/test/engine/test_opcua_hardware.py > $pre.tests.log 2>&1
+flock /tmp/confirm/opcua.lock timeout 900 /venv/bin/python -m pytest -q -p no:cacheprovider --timeout=300 openpectus/test/engine/test_opcua_hardware.py > $pre.opcua.log 2>&1
+failed=$(cat $pre.tests.log $pre.opcua.log | grep -E '^(FAILED|ERROR) openpectus' | sed 's/ - .*//' | awk '{print $2}' | grep -v test_validate_demo_uod | sort -u | tr '\n' ' ')
+summary="$(grep -E '[0-9]+ passed' $pre.tests.log | tail -1) | opcua: $(grep -E '[0-9]+ passed' $pre.opcua.log | tail -1)"
 still=""
 for t in $failed; do
-  timeout 600 /venv/bin/python -m pytest -q -p no:cacheprovider --timeout=900 "$t" > /tmp/confirm/$id.rerun.log 2>&1 || still="$still $t"
+  flock /tmp/confirm/opcua.lock timeout 600 /venv/bin/python -m pytest -q -p no:cacheprovider --timeout=300 "$t" > $pre.rerun.log 2>&1 || still="$still $t"
 done
 git checkout -q -- . ; git clean -fdq
-git apply /tmp/seed/$id.patch.diff
-/verif/tools/try_seed.sh $wt $id quick > /tmp/confirm/$id.check.log 2>&1; crc=$?
-sigs=$(grep 'signature=' /tmp/seedout/$id/log.txt | sed 's/ *signature=//' | sort -u | head -8 | tr '\n' ' ')
+git apply $wdir/$id.patch.diff
+VERIF_OUT=/tmp/confirm/out_${wave}_$id PYTHONPATH=$wt PYTHONHASHSEED=0 OPEN_PECTUS_VERIF=1 /venv/bin/python -m mc check $id --tier quick > $pre.check.log 2>&1 < /dev/null; crc=$?
+sigs=$(grep 'signature=' $pre.check.log | sed 's/ *signature=//' | sort -u | head -8 | tr '\n' ' ')
 git checkout -q -- . ; git clean -fdq
-/venv/bin/python - "$id" "$head" "$files" "$comp" "$d0" "$d1" "$summary" "$failed" "$still" "$crc" "$sigs" <<'PY' > $res
+cd /verif
+/venv/bin/python - "$id" "$wave" "$head" "$files" "$comp" "$d0" "$d1" "$summary" "$failed" "$still" "$crc" "$sigs" <<'PY' > $res
 import json, sys
-k = ["id","head","files","compile_rc","demo_rc_without","demo_rc_with","tests_summary","failed_first_run","failed_when_rerun_alone","check_rc","check_signatures"]
+k = ["id","wave","head","files","compile_rc","demo_rc_without","demo_rc_with","tests_summary","failed_first_run","failed_when_rerun_alone","check_rc","check_signatures"]
 print(json.dumps(dict(zip(k, sys.argv[1:])), indent=1))
 PY
-echo "$id: applies compile=$comp demo(without/with)=$d0/$d1 tests='$summary' failed-first='$failed' still='$still' check_rc=$crc"
+echo "$id: compile=$comp demo(without/with)=$d0/$d1 tests='$summary' failed-first='$failed' still='$still' check_rc=$crc"
